@@ -1,5 +1,6 @@
 import Toq.Driver.QJson
 import Toq.Model.ChanMetrics
+import Toq.Model.ChanMetricsPath
 /-! Driver front end for C20 (channel distance measures: certificate checkers of `Toq.Model.ChanMetrics`).
 
 Ops (matrices in the `QJson` dyadic encoding, row-major; Choi matrices on `X ⊗ Y` with index `x·dY + y`, `N = dX·dY`;
@@ -12,7 +13,19 @@ rationals as `[num, den]` or an integer):
 
 Answer `{"ok":[num,den]}` (the exact value returned by the verified checker) or `{"reject":"<first failed condition>"}`.
 The verdict is always the one of the verified checker; the diagnostic only words a rejection by re-evaluating the same
-named conditions. -/
+named conditions.
+
+Code paths and programs (`Toq.Model.ChanMetricsPath`; exact matrices are answered as `{"re":[[num,den]…],"im":[…]}` row-major):
+
+* `c20_cb_path {"rows","cols"[,"J":rows×rows,"L":rows×k,"k","v":rows×1]}` → `{"path":"not_square|channel_one|cp_shortcut|sdp|undecided",
+  "cp","tp":"yes|no|unknown"[,"dim":n][,"value":{"re":rat,"im":rat}]}` (`value`: 1 on `channel_one`, the entry of the 1×1 matrix the
+  CP shortcut computes on `cp_shortcut`); `{"reject":"NotPerfectSquare"}` when `rows` is not a square number
+* `c20_cf_path {"r1","c1","r2","c2"}` → `{"path":"shape_mismatch|not_square|sdp"[,"choi_dim","dim"]}`
+* `c20_dual_choi {"dX","dY","J"}` → `{"D":mat}` (mirror of `dual_channel` on a Choi matrix)
+* `c20_cb_program {"dX","dY","J","Y0","Y1"}` → `{"block":mat 2N×2N,"T0":mat dX×dX,"T1":mat dX×dX}` (the constraint matrix
+  `[[Y0,−J],[−Jᴴ,Y1]]` and the two partial traces whose spectral norms are the objective)
+* `c20_cf_program {"dX","dY","J1","J2","Q","lam"}` → `{"block":mat 2N×2N,"slack":mat dX×dX}` (`[[J1,Qᴴ],[Q,J2]]` and
+  `½(Tr_Y Q + (Tr_Y Q)ᴴ) − lam·1`) -/
 open Lean Toq.ChanMetrics EMat
 
 namespace Toq.Driver.C20
@@ -106,7 +119,76 @@ def hCfDual : Handler := fun j => do
   return answer (checkCfDual dX dY J1 J2 ρ W0 W1 Lρ Lb) fun _ =>
     firstWhy [("rho", densityWhy ρ Lρ), ("block", psdWhy (cfDualBlock dX dY ρ W0 W1) Lb)]
 
+/-! ### code paths and programs -/
+
+def ematJson {n m : Nat} (A : EMat n m) : Json :=
+  let cells := (List.finRange n).flatMap fun i => (List.finRange m).map fun c => A.get i c
+  Json.mkObj [("re", Json.arr (cells.map fun z => ratJson z.re).toArray),
+    ("im", Json.arr (cells.map fun z => ratJson z.im).toArray)]
+
+def qiJson (z : QI) : Json := Json.mkObj [("re", ratJson z.re), ("im", ratJson z.im)]
+
+open Toq.ChannelProps in
+def hCbPath : Handler := fun j => do
+  let rows ← getNat j "rows"
+  let cols ← getNat j "cols"
+  if rows != cols then
+    return Json.mkObj [("path", Json.str (cbPath rows cols .unknown .unknown).str)]
+  let d := roundSqrt rows
+  if rows = d * d then
+    let J : EMat (d * d) (d * d) ← getEMat j "J" (d * d) (d * d)
+    let v : Option (EMat (d * d) 1) ← if isNull j "v" then pure none else (some <$> getEMat j "v" (d * d) 1)
+    let k := (getNat j "k").toOption.getD 0
+    let L : Option (EMat (d * d) k) ← if isNull j "L" then pure none else (some <$> getEMat j "L" (d * d) k)
+    let cp := psdV J L v
+    let tp := tpV J
+    let path := cbPath rows cols cp tp
+    let base := [("path", Json.str path.str), ("cp", Json.str cp.str), ("tp", Json.str tp.str)]
+    match path with
+    | .channelOne => return Json.mkObj (base ++ [("value", qiJson 1)])
+    | .cpShortcut => return Json.mkObj (base ++ [("value", qiJson (cpShortcutAsCoded d J))])
+    | .sdp dim => return Json.mkObj (base ++ [("dim", Json.num dim)])
+    | _ => return Json.mkObj base
+  else
+    return reject "NotPerfectSquare"
+
+def hCfPath : Handler := fun j => do
+  let r1 ← getNat j "r1"
+  let c1 ← getNat j "c1"
+  let r2 ← getNat j "r2"
+  let c2 ← getNat j "c2"
+  match cfPath r1 c1 r2 c2 with
+  | .shapeMismatch => return Json.mkObj [("path", Json.str "shape_mismatch")]
+  | .notSquare => return Json.mkObj [("path", Json.str "not_square")]
+  | .sdp n dim => return Json.mkObj [("path", Json.str "sdp"), ("choi_dim", Json.num n), ("dim", Json.num dim)]
+
+def hDualChoi : Handler := fun j => do
+  let dX ← getNat j "dX"
+  let dY ← getNat j "dY"
+  let J ← getEMat j "J" (dX * dY) (dX * dY)
+  return Json.mkObj [("D", ematJson (dualChoiE dX dY J))]
+
+def hCbProgram : Handler := fun j => do
+  let dX ← getNat j "dX"
+  let dY ← getNat j "dY"
+  let J ← getEMat j "J" (dX * dY) (dX * dY)
+  let Y0 ← getEMat j "Y0" (dX * dY) (dX * dY)
+  let Y1 ← getEMat j "Y1" (dX * dY) (dX * dY)
+  return Json.mkObj [("block", ematJson (cbDualBlock J Y0 Y1)), ("T0", ematJson (ptrY dX dY Y0)),
+    ("T1", ematJson (ptrY dX dY Y1))]
+
+def hCfProgram : Handler := fun j => do
+  let dX ← getNat j "dX"
+  let dY ← getNat j "dY"
+  let J1 ← getEMat j "J1" (dX * dY) (dX * dY)
+  let J2 ← getEMat j "J2" (dX * dY) (dX * dY)
+  let Q ← getEMat j "Q" (dX * dY) (dX * dY)
+  let lam ← getRat j "lam"
+  return Json.mkObj [("block", ematJson (cfPrimalBlock J1 J2 Q)), ("slack", ematJson (cfLoewnerSlack dX dY Q lam))]
+
 def handlers : List (String × Handler) :=
-  [("c20_cb_primal", hCbPrimal), ("c20_cb_dual", hCbDual), ("c20_cf_primal", hCfPrimal), ("c20_cf_dual", hCfDual)]
+  [("c20_cb_primal", hCbPrimal), ("c20_cb_dual", hCbDual), ("c20_cf_primal", hCfPrimal), ("c20_cf_dual", hCfDual),
+   ("c20_cb_path", hCbPath), ("c20_cf_path", hCfPath), ("c20_dual_choi", hDualChoi), ("c20_cb_program", hCbProgram),
+   ("c20_cf_program", hCfProgram)]
 
 end Toq.Driver.C20
